@@ -16,21 +16,24 @@ ASSUMPTIONS = ["accepted error 10*|D_h-D_{h/2}| + 1e-7*max(S,|score|,|derivative
                "boundaries) are detected by non-converging one-sided slopes and excluded; their number is reported"]
 
 SCALES = [0.1, 1.0, 4.0, 10.0, 20.0, 40.0]
+# epsilon is a documented constructor parameter in (0,1): large values put rows partly inside the clipped region
+EPSILONS = [1e-12, 1e-12, 1e-6, 1e-3, 0.05, 0.2]
 
 
 @st.composite
 def rand_case(draw):
     gs = draw(objs.gemini_spec())
-    nmax = 14 if gs["base"] == "wasserstein" else 30
-    return {"g": gs, "p": draw(gens.p_spec(n_max=nmax, scales=SCALES)), "x": draw(gens.x_spec()),
-            "dseed": draw(gens.seeds), "mode": "random"}
+    big = draw(st.integers(0, 5)) == 0
+    nmax = (30 if big else 14) if gs["base"] == "wasserstein" else (160 if big else 30)
+    return {"g": gs, "p": draw(gens.p_spec(n_max=nmax, k_max=16 if big else 6, scales=SCALES)), "x": draw(gens.x_spec()),
+            "dseed": draw(gens.seeds), "mode": "random", "eps": draw(st.sampled_from(EPSILONS))}
 
 
 @st.composite
 def coord_case(draw):
     gs = draw(objs.gemini_spec())
     return {"g": gs, "p": draw(gens.p_spec(n_max=4, k_max=3, scales=SCALES[:5])), "x": draw(gens.x_spec()),
-            "dseed": 0, "mode": "coords"}
+            "dseed": 0, "mode": "coords", "eps": draw(st.sampled_from(EPSILONS))}
 
 
 def oracle_deriv(case):
@@ -39,6 +42,8 @@ def oracle_deriv(case):
     n, K = L.shape
     X = gens.build_X(case["x"], n, nonneg=objs.gs_needs_nonneg(gs))
     g, A, label = objs.make_gemini(gs, X)
+    g.epsilon = case.get("eps", 1e-12)
+    label += f", epsilon={g.epsilon}"
     P = gens.softmax(L)
     val, grad = g(P, A, return_grad=True)
     val = float(np.asarray(val))
@@ -102,7 +107,7 @@ def oracle_deriv(case):
         ok += 1
         if abs(an) > 1e-6 * S:
             strong = True
-    return {"nontrivial": strong, "classes": [objs.gs_class(gs) + f":scale={case['p']['scale']}"],
+    return {"nontrivial": strong, "classes": [objs.gs_class(gs) + f":scale={case['p']['scale']}", f"eps={g.epsilon}"],
             "counts": {"directions_accepted": ok, "kink_skipped": kink}}
 
 
